@@ -86,7 +86,7 @@ func realDigest(content string) string {
 }
 
 func H17Verify() {
-	base := ndStringIn("base", ndIntRange("base.len", 1, 2), "ab")
+	base := ndStringIn("base", ndIntRange("base.len", 1, 2), "abA") // names differing only in letter case are different files
 	digest := ndStringIn("digest", 2, "01")
 	existsChart, existsSig := ndBool("existsChart"), ndBool("existsSig")
 	decodeOK, sigValid, parseOK := ndBool("decodeOK"), ndBool("sigValid"), ndBool("parseOK")
@@ -98,7 +98,7 @@ func H17Verify() {
 	// marker, another one, a differently spelled one, or none
 	markers := []string{"sha256:", "sha512:", "SHA256:", "md5:", ""}
 	for k := 0; k < n; k++ {
-		e := ent{ndStringIn("entry.name", ndIntRange("entry.len", 1, 2), "ab"), ndStringIn("entry.digest", 2, "01")}
+		e := ent{ndStringIn("entry.name", ndIntRange("entry.len", 1, 2), "abA"), ndStringIn("entry.digest", 2, "01")}
 		ents = append(ents, e)
 		entries[e.name] = markers[ndChoice("entry.marker", len(markers))] + e.tok // later entries with the same name replace earlier ones (YAML map)
 	}
